@@ -99,6 +99,17 @@ check("C19", "model_checking",
       "exhaustive input-grammar enumeration with parse-back oracle",
       "DESIGN.md §4 C19")
 
+check("C18", "model_checking",
+      "The real Agent.UpdatePeers / AddPeers runs against a recording EthNode and a scripted pool over the full product of per-peer situations (4 peers: IPv4, IPv6, loopback, no address; each absent / local only / local and listed as active under the same host, another host, another port, no address, as a bare id / listed only) x 5 pool invalid lists (bare id, enode URI, ids not connected locally) x strict on/off x target x node kind x number of hosts returned (~92 000 rounds quick, ~276 000 thorough), plus pool errors at Update and at Peer and 128 three-round histories where each round starts from the node state the previous one produced. Oracle: an agent model with its own URI parser: set un-trusted == set disconnected == model set, peer request iff shortfall with exact Num and Kind, every returned host connected, failed update => no node call.",
+      "Finite alphabets; node-side call failures not modelled.",
+      "bounded-exhaustive round enumeration and multi-round histories on real code vs agent model",
+      "DESIGN.md §4 C18")
+check("C20", "model_checking",
+      "The real Agent (Start/Stop/Wait/UpdatePeers/serveUpdates; its ticker, stop/wait channels, mutex and Once run under the controlled scheduler on a virtual clock) is driven through every lifecycle history up to depth 6 (quick) / 8 (thorough) over {start, stop, wait, forced update, one interval elapsing, start against a refusing pool, failing keep-alive}; after every event the number of live keep-alive loops (scheduler thread accounting) must equal the lifecycle model, a second start must be refused without touching the pool, exactly one keep-alive per interval per loop, Wait returns the loop's result and restart works. Concurrent start/start, stop/tick, wait/stop and stop/update are explored within a delay bound. The interval flag is checked on the real binary (vipnode agent --rpc fakenode://... :memory:) for 13 interval strings.",
+      "Depth / delay bounds; Stop without a running loop not exercised; the exact lower bound 5s not judged; the CLI probe waits 2.5 s of real time per interval string to decide 'accepted' (process still running or registered).",
+      "explicit-state lifecycle search + delay-bounded schedule DFS on the real agent; real binary for the CLI clause",
+      "DESIGN.md §4 C20")
+
 ALL = ["C%02d" % i for i in range(1, 21)]
 NA_REASON = "check not built yet (work in progress; see DESIGN.md §4 for the planned model-checking design)"
 
